@@ -124,4 +124,93 @@ theorem C10_session_id_fresh (srv : Server) (hw : srv.WF) (hint : Nat) :
   · exact hr.2.2 (heq ▸ hin)
   · rw [hid] at heq; omega
 
+/-! ### the id source by itself, under any use
+
+  `New` and `Reuse` each run under the generator's own mutex (lock facts `locks_SequentialIDGenerator_*`), so whatever
+  the number of connections calling them at once, what happens is some sequence of the two operations: "all
+  interleavings of concurrent allocations" are the lists below. -/
+
+inductive IdOp where
+  | new (hint : Nat)        -- any caller allocates (`hint`: which pooled id Go's map iteration yields)
+  | release (i : Nat)       -- a holder gives `i` back (ignored when nobody holds `i`)
+deriving Repr, DecidableEq
+
+structure IdSrc where
+  gen : IdGen := {}
+  held : List Nat := []     -- ids issued and not given back
+
+def IdSrc.step (s : IdSrc) : IdOp → IdSrc
+  | .new hint => { gen := (s.gen.new hint).2, held := (s.gen.new hint).1 :: s.held }
+  | .release i => if s.held.contains i then { gen := s.gen.reuse i, held := s.held.filter (· != i) } else s
+
+structure IdSrc.Inv (s : IdSrc) : Prop where
+  nodup : s.held.Nodup
+  heldOk : ∀ i ∈ s.held, i ≤ s.gen.cur ∧ i ∉ s.gen.pool
+  poolLe : ∀ i ∈ s.gen.pool, i ≤ s.gen.cur
+
+theorem IdSrc.Inv_step (s : IdSrc) (h : s.Inv) (op : IdOp) : (s.step op).Inv := by
+  cases op with
+  | new hint =>
+    simp only [IdSrc.step]
+    rcases IdGen.new_spec s.gen hint with ⟨hin, hpool, hcur⟩ | ⟨hnil, hid, hcur, hpool⟩
+    · constructor
+      · refine List.nodup_cons.mpr ⟨fun hm => (h.heldOk _ hm).2 hin, h.nodup⟩
+      · intro i hi
+        rw [hcur, hpool]
+        rcases List.mem_cons.mp hi with e | m
+        · rw [e]; exact ⟨h.poolLe _ hin, by simp⟩
+        · exact ⟨(h.heldOk i m).1, fun x => (h.heldOk i m).2 (List.mem_filter.mp x).1⟩
+      · intro i hi; rw [hpool] at hi; rw [hcur]; exact h.poolLe i (List.mem_filter.mp hi).1
+    · constructor
+      · refine List.nodup_cons.mpr ⟨fun hm => ?_, h.nodup⟩
+        have := (h.heldOk _ hm).1; rw [hid] at this; omega
+      · intro i hi
+        rw [hcur, hpool]
+        rcases List.mem_cons.mp hi with e | m
+        · rw [e, hid]; exact ⟨Nat.le_refl _, by simp⟩
+        · exact ⟨Nat.le_succ_of_le (h.heldOk i m).1, by simp⟩
+      · intro i hi; rw [hpool] at hi; simp at hi
+  | release i =>
+    simp only [IdSrc.step]
+    split
+    · next hc =>
+      have hi : i ∈ s.held := by simpa using hc
+      constructor
+      · exact List.Nodup.sublist List.filter_sublist h.nodup
+      · intro j hj
+        have hj' := List.mem_filter.mp hj
+        have hne : j ≠ i := by simpa using hj'.2
+        refine ⟨by rw [IdGen.reuse_cur]; exact (h.heldOk j hj'.1).1, fun hm => ?_⟩
+        rcases (IdGen.mem_reuse_pool s.gen i j).mp hm with m | e
+        · exact (h.heldOk j hj'.1).2 m
+        · exact hne e
+      · intro j hj
+        rw [IdGen.reuse_cur]
+        rcases (IdGen.mem_reuse_pool s.gen i j).mp hj with m | e
+        · exact h.poolLe j m
+        · rw [e]; exact (h.heldOk i hi).1
+    · exact h
+
+/-- **Ids never collide, however many callers allocate and release at once.** After any sequence of allocations and
+    releases on one id source, the ids currently held are pairwise distinct, and an id handed out next is none of
+    them. -/
+theorem C10_idsource_unique (ops : List IdOp) :
+    let s := ops.foldl IdSrc.step {}
+    s.held.Nodup ∧ ∀ hint, (s.gen.new hint).1 ∉ s.held := by
+  have hinv : (ops.foldl IdSrc.step {}).Inv := by
+    have : ∀ (ops : List IdOp) (s : IdSrc), s.Inv → (ops.foldl IdSrc.step s).Inv := by
+      intro ops
+      induction ops with
+      | nil => intro s h; exact h
+      | cons o os ih => intro s h; exact ih _ (IdSrc.Inv_step s h o)
+    exact this ops {} ⟨by simp, by simp, by simp⟩
+  refine ⟨hinv.nodup, fun hint hm => ?_⟩
+  have hn := (IdSrc.Inv_step _ hinv (.new hint)).nodup
+  simp only [IdSrc.step] at hn
+  exact (List.nodup_cons.mp hn).1 hm
+
+/-- an id is handed out again only after it was given back -/
+example : let s := [IdOp.new 0, .new 0, .release 1, .new 1].foldl IdSrc.step {}
+    s.held = [1, 2] := by decide
+
 end Hagall.Props.C10
